@@ -35,6 +35,13 @@ SHAPES = {
     'mixed': lambda d: 'select ' + '(case when f([' * (d // 4 + 1) + '1' + ']) then 1 end)' * (d // 4 + 1),
     'paren-where': lambda d: 'select * from t where ' + '(a = 1 and ' * d + 'b' + ')' * d,
     'comment-paren': lambda d: 'select ' + '( /*c*/ ' * d + '1' + ' )' * d,
+    'paren-ops': lambda d: 'select ' + '(1 + ' * d + '1' + ')' * d,
+    'paren-cmp': lambda d: 'select * from t where ' + '(a = ' * d + '1' + ')' * d,
+    'func-ops': lambda d: 'select ' + 'f(1 + ' * d + '1' + ')' * d,
+    'func-commas': lambda d: 'select ' + 'f(a, ' * d + '1' + ')' * d,
+    'paren-commas': lambda d: 'select ' + '(a, ' * d + '1' + ')' * d,
+    'brack-ops': lambda d: 'select a' + '[1 + a' * d + '[1]' + ']' * d,
+    'case-ops': lambda d: 'select ' + 'case when a = 1 then 1 + ' * d + '1' + ' end' * d,
     'create-begin': lambda d: 'create procedure p() ' + 'begin ' * d + 'select 1; ' + 'end; ' * d,
 }
 
